@@ -84,11 +84,11 @@ json generate(uint64_t seed, uint64_t idx, int tier)
 		json s;
 		switch (r.below(4)) {
 		case 0: // parser, scalar
-			s = parse_step(0, 0, r.chance(1, 4) ? "fp" : "buf", scalar + " = " + encode_string(r, tok, 2) + "\n");
+			s = parse_step(0, 0, r.chance(1, 4) ? "fp" : "buf", scalar + " = " + encode_string(r, tok, 2, false) + "\n");
 			s["conv"] = json::array({"parse", ty, J(tok), scalar});
 			break;
 		case 1: // parser, list element
-			s = parse_step(0, 0, "buf", list + " = {" + encode_string(r, tok, 2) + "}\n");
+			s = parse_step(0, 0, "buf", list + " = {" + encode_string(r, tok, 2, false) + "}\n");
 			s["conv"] = json::array({"parse", ty, J(tok), list});
 			break;
 		case 2:
